@@ -66,13 +66,20 @@ def gen_trace(recipe):
   else:
     Xq = rng.normal(size=(nq, d)) * (10.0 ** rng.integers(-3, 4))
   Xq[1] = Xq[0]
+  if recipe['qkind'] == 'random':
+    pass
   store = np.vstack([Xtr, Xq])
   off = len(Xtr)
   prep = store if recipe['prep'] == 'array' else (lambda idx, _s=store: _s[np.asarray(idx, dtype=int)])
   opts = gen.options(rng, name, d, len(set(tr['y'].tolist())))
   opts['preprocessor'] = prep
   est, tr, opts = gen.fitted(rng, name, opts=opts, train=tr)
-  P = [(0, 1), (0, 2), (2, 0), (3, 4), (4, 5), (5, 5), (1, 3), (2, 5)]
+  if recipe['qkind'] == 'random':
+    # two query points whose difference the learned transformation annihilates (rank-deficient models)
+    v = c01.null_direction(est.components_)
+    store[off + 3] = store[off + 2] + v * 12.5
+    Xq[3] = store[off + 3]
+  P = [(0, 1), (0, 2), (2, 0), (3, 4), (4, 5), (5, 5), (1, 3), (2, 5), (2, 3), (3, 2)]
   rl = reprs_for(off, recipe['qkind'] == 'integer')
   ev = obs.views_event(est, Xq, P, rl)
   # single-pair batches
